@@ -227,8 +227,10 @@ Definition final_state_of (u : upd) : string :=
   end.
 
 (** * createTaskWithDir (one section, create + optional updates) *)
-Definition new_txn (e : env) (is_epic : bool) (title body epic : string) (u : upd) (agent : string)
+Definition new_txn (e : env) (is_epic : bool) (title body epic : string) (u0 : upd) (agent : string)
                    (g : graph) : option (list event * reply) :=
+  (* RunNewTask deletes title / body / epic from the updates before the call *)
+  let u := Upd None None None (u_state u0) (u_claim u0) (u_rpath u0) (u_rsum u0) in
   let epic_ok :=
     if (negb is_epic && negb (String.eqb epic ""))%bool then
       match g_tasks g !! epic with Some et => t_is_epic et | None => false end
@@ -240,7 +242,7 @@ Definition new_txn (e : env) (is_epic : bool) (title body epic : string) (u : up
       let uuid := opt_default "" (head (e_uuids e)) in
       let ep := if is_epic then "" else epic in
       let create := ENew is_epic i uuid ep "todo" title body (Some (e_now e)) in
-      if upd_empty u then Some ([create], RCreated i "todo") else
+      if (is_epic || upd_empty u)%bool then Some ([create], RCreated i "todo") else
       match result_req u with
       | None => None
       | Some rq =>
